@@ -483,8 +483,10 @@ func (r *runner) runCase(c *caseT) {
 	cp := next("op")
 	arm(db, cp)
 	var opErr error
+	cur := "" // the call the process is executing (reported with a crash)
 	crashed := safe(func() {
 		for _, s := range sc.Op {
+			cur = s.What
 			if opErr = doStep(n, s); opErr != nil {
 				return
 			}
@@ -495,10 +497,10 @@ func (r *runner) runCase(c *caseT) {
 	unresolved := false
 	switch {
 	case crashed:
-		r.emit(tr.M{"ev": "Crash", "ph": "op", "i": len(log), "clean": false, "lost": lostKind(db)})
+		r.emit(tr.M{"ev": "Crash", "ph": "op", "i": len(log), "clean": false, "lost": lostKind(db), "step": cur})
 	case cp != nil && cp.K == "clean":
 		r.emit(tr.M{"ev": "OpEnd", "ok": opErr == nil, "err": errStr(opErr), "nw": len(log), "obs": observe(n, lo, hi)})
-		r.emit(tr.M{"ev": "Crash", "ph": "op", "i": len(log), "clean": true, "lost": "clean"})
+		r.emit(tr.M{"ev": "Crash", "ph": "op", "i": len(log), "clean": true, "lost": "clean", "step": ""})
 		crashed = true
 	default:
 		r.emit(tr.M{"ev": "OpEnd", "ok": opErr == nil, "err": errStr(opErr), "nw": len(log), "obs": observe(n, lo, hi)})
@@ -552,7 +554,7 @@ func (r *runner) runCase(c *caseT) {
 			log2 := db.Disarm()
 			r.emitWrites("rec", log2)
 			if crashed2 {
-				r.emit(tr.M{"ev": "Crash", "ph": "rec", "i": len(log2), "clean": false, "lost": lostKind(db)})
+				r.emit(tr.M{"ev": "Crash", "ph": "rec", "i": len(log2), "clean": false, "lost": lostKind(db), "step": "Boot"})
 				continue
 			}
 			if cp != nil {
@@ -597,6 +599,7 @@ func (r *runner) runCase(c *caseT) {
 		crashed = safe(func() {
 			for i := range cont {
 				s := cont[i]
+				cur = s.What
 				err := doStep(n, s)
 				a := tr.M{"ev": "Apply", "what": s.What, "to": int64(s.To), "b": blkRec(s.B), "ok": err == nil, "err": errStr(err), "head": hobs(n.Chain.Head)}
 				applied = append(applied, a)
@@ -612,7 +615,7 @@ func (r *runner) runCase(c *caseT) {
 			r.emit(a)
 		}
 		if crashed {
-			r.emit(tr.M{"ev": "Crash", "ph": "cont", "i": len(log3), "clean": false, "lost": lostKind(db)})
+			r.emit(tr.M{"ev": "Crash", "ph": "cont", "i": len(log3), "clean": false, "lost": lostKind(db), "step": cur})
 			continue
 		}
 		if cp != nil {
@@ -671,11 +674,35 @@ func main() {
 		}
 	}
 	t0 := time.Now()
+	// positions of the operation's REAL write sequence that no schedule of the model addresses
+	// (writes the model does not know, or knows in another order) are crashed too: sweep
+	covered := map[string]map[string]bool{}
+	var order []*caseT
 	for _, c := range all {
 		if groups[key(c)]%shardN != shardK {
 			continue
 		}
+		k := key(c)
+		if covered[k] == nil {
+			covered[k] = map[string]bool{}
+			order = append(order, c)
+		}
+		if len(c.Crashes) == 1 && c.Crashes[0].Ph == "op" {
+			covered[k][fmt.Sprint(c.Crashes[0].K, "/", c.Crashes[0].Occ)] = true
+		}
 		r.runCase(c)
+	}
+	for _, c0 := range order {
+		sc := r.scenario(c0.Sc, c0.Retain)
+		occ := map[string]int{}
+		for i, k := range sc.ref.kinds {
+			occ[k]++
+			if covered[key(c0)][fmt.Sprint(k, "/", occ[k])] || (bulkKinds[k] && occ[k] > 1) {
+				continue
+			}
+			r.runCase(&caseT{Sc: c0.Sc, Retain: c0.Retain, Src: "sweep", Crashes: []crashPt{{Ph: "op", I: i}}})
+			r.stats["sweep"]++
+		}
 	}
 	if *enum > 0 {
 		r.enumerate(*enum, *dbl, shardK, shardN)
